@@ -139,14 +139,9 @@ Definition argument_errors (c : case17) : list N :=
   let geo := k_entry c <=? 2 in
   (if geo && negb (Nat.eqb (dlen (k_points c)) (dlen (k_weights c))) then [code_disc CLenMismatch] else [])
   ++ (if (k_entry c <=? 1) && negb ((k_dim c =? 2) || (k_dim c =? 3)) then [code_disc CBadDimension] else [])
+  ++ (if geo && negb (ty_eqb (dtype (k_points c)) TDouble) then [code_disc CBadType] else [])   (* points must be double *)
   ++ (if (k_entry c =? 2) && negb (ty_eqb (dtype (k_weights c)) TDouble) then [code_disc CBadType] else [])
   ++ (if is_fm c && negb (ty_eqb (a_type (k_adj c)) TInt64) then [code_disc CBadType] else []).
-
-(* points announced with another Type tag than double: the library never looks at that tag (the harness's
-   memory does hold doubles, so reading it as doubles is defined).  "The algorithm does not support a given
-   type" (BAD_TYPE) would be a documented answer as well, so it is accepted, not required. *)
-Definition optional_errors (c : case17) : list N :=
-  if (k_entry c <=? 2) && negb (ty_eqb (dtype (k_points c)) TDouble) then [code_disc CBadType] else [].
 
 Definition prop17 (c : case17) : bool :=
   match k_c c with
@@ -155,9 +150,8 @@ Definition prop17 (c : case17) : bool :=
   | CRet code arr =>
     match argument_errors c with
     | (_ :: _) as acc =>
-      existsb (N.eqb code) (acc ++ optional_errors c) && list_eqb N.eqb arr (k_p0 c)
+      existsb (N.eqb code) acc && list_eqb N.eqb arr (k_p0 c)
     | [] =>
-      if existsb (N.eqb code) (optional_errors c) && list_eqb N.eqb arr (k_p0 c) then true else
       match k_ref c with
       | None => false                      (* harness inconsistency: no reference and no documented argument error *)
       | Some r =>
